@@ -19,31 +19,27 @@ def run(tier, seed):
     rep = Report("C08", tier, seed)
     quick = tier == "quick"
     # design level: RemovalFrame (everything that survives a removal is unchanged) + the graph rules after every removal
-    for sd in ("svc", "rich"):
-        tc.model_check(rep, "MC_FimTopology seed=" + sd, tc.consts(2 if quick else 4, sd, "full"))
-    tc.model_check(rep, "MC_FimTopology seed=subs", tc.consts(2 if quick else 3, "subs", "full"))
-    tc.model_check(rep, "MC_FimTopology seed=fac3 profile=fac", tc.consts(4 if quick else 6, "fac3", "fac"))
-    scripts = []
-    for sd in ("svc", "rich"):
-        scripts += tc.generate(rep, "Gen_FimTopology seed=%s (removal transitions)" % sd, tc.consts(3 if quick or sd == "rich" else 4, sd, "full"),
-                               keep=lambda p: p["op"]["op"] in REMOVALS or p["op"]["op"] in HANDLE_OPS or p["op"]["op"] == "Views",
-                               workers=8)
-    scripts += tc.generate(rep, "Gen_FimTopology seed=twin (removal transitions)", tc.consts(2 if quick else 3, "twin", "full"),
-                           keep=lambda p: p["op"]["op"] in REMOVALS or p["op"]["op"] in HANDLE_OPS or p["op"]["op"] == "Views",
-                           workers=8)
-    # a port with two sub-interfaces (random walks reach this only by luck)
-    scripts += tc.generate(rep, "Gen_FimTopology seed=subs (removal transitions)", tc.consts(2 if quick else 3, "subs", "full"),
-                           keep=lambda p: p["op"]["op"] in REMOVALS or p["op"]["op"] in HANDLE_OPS or p["op"]["op"] == "Views",
-                           workers=8)
-    # a facility with three interfaces: which of them is connected when the facility goes is the explorer's choice
-    scripts += tc.generate(rep, "Gen_FimTopology seed=fac3 (removal transitions)", tc.consts(4 if quick else 5, "fac3", "fac"),
-                           keep=lambda p: p["op"]["op"] in REMOVALS or p["op"]["op"] in HANDLE_OPS or p["op"]["op"] == "Views",
-                           workers=8)
+    KEEP = lambda p: p["op"]["op"] in REMOVALS or p["op"]["op"] in HANDLE_OPS or p["op"]["op"] == "Views"
+    G = lambda name, c, w=8: (lambda: tc.generate(rep, name, c, keep=KEEP, workers=w))
+    M = lambda name, c: (lambda: tc.model_check(rep, name, c))
+    res = tc.together(quick,
+        M("MC_FimTopology seed=svc", tc.consts(2 if quick else 4, "svc", "full")),
+        M("MC_FimTopology seed=rich", tc.consts(2 if quick else 4, "rich", "full")),
+        M("MC_FimTopology seed=subs", tc.consts(2 if quick else 3, "subs", "full")),
+        M("MC_FimTopology seed=fac3 profile=fac", tc.consts(4 if quick else 6, "fac3", "fac")),
+        G("Gen_FimTopology seed=svc (removal transitions)", tc.consts(3 if quick else 4, "svc", "full")),
+        G("Gen_FimTopology seed=rich (removal transitions)", tc.consts(3, "rich", "full")),
+        G("Gen_FimTopology seed=twin (removal transitions)", tc.consts(2 if quick else 3, "twin", "full")),
+        # a port with two sub-interfaces (random walks reach this only by luck)
+        G("Gen_FimTopology seed=subs (removal transitions)", tc.consts(2 if quick else 3, "subs", "full")),
+        # a facility with three interfaces: which of them is connected when the facility goes is the explorer's choice
+        G("Gen_FimTopology seed=fac3 (removal transitions)", tc.consts(4 if quick else 5, "fac3", "fac")),
+        # substrate models: two-ended direct links between node ports, node-level services
+        lambda: tc.generate(rep, "Gen_FimTopology substrate seed=sub (removal transitions)",
+                            tc.consts(3 if quick else 4, "sub", "full", "substrate"), keep=KEEP, workers=8))
+    scripts = [x for r in res[4:9] for x in r]
+    sscripts = res[9]
     tc.run_and_validate(rep, scripts, "every applicable removal/disconnect in every reachable topology of the bound", only_ops=mine)
-    # substrate models: two-ended direct links between node ports, node-level services
-    sscripts = tc.generate(rep, "Gen_FimTopology substrate seed=sub (removal transitions)", tc.consts(3 if quick else 4, "sub", "full", "substrate"),
-                           keep=lambda p: p["op"]["op"] in REMOVALS or p["op"]["op"] in HANDLE_OPS or p["op"]["op"] == "Views",
-                           workers=8)
     tc.run_and_validate(rep, sscripts, "every applicable removal in every reachable substrate model of the bound",
                         flavour="substrate", only_ops=mine)
     rng = random.Random(seed)
